@@ -268,7 +268,7 @@ func (d *f32StringDecoder) FromDom(vp unsafe.Pointer, node Node, ctx *context) e
 	}
 
 	ret, err := ParseF64(s)
-	if err != nil || ret > math.MaxFloat32 || ret < -math.MaxFloat32 {
+	if err != nil || math.IsInf(float64(float32(ret)), 0) {
 		return error_mismatch(node, ctx, float32Type)
 	}
 
